@@ -351,6 +351,12 @@ func checkC18(ctx *Ctx, c *Case, m proto.Message, opts rapidproto.GeneratorOptio
 
 func c18Walk(m protoreflect.Message, opts rapidproto.GeneratorOptions, mask, depth int, path string) error {
 	md := m.Descriptor()
+	// the generator never draws unknown fields: bytes that decode "successfully"
+	// but leave unknown fields behind (an Any value that is really another type's
+	// encoding) are not a value of the type the URL names
+	if u := m.GetUnknown(); len(u) > 0 {
+		return fmt.Errorf("%s: %s carries %d bytes of unknown fields: the bytes are not an encoding of that type", path, md.FullName(), len(u))
+	}
 	switch md.FullName() {
 	case "google.protobuf.Timestamp":
 		ts := &timestamppb.Timestamp{Seconds: m.Get(md.Fields().ByName("seconds")).Int(), Nanos: int32(m.Get(md.Fields().ByName("nanos")).Int())}
